@@ -37,15 +37,14 @@ func init() {
 }
 
 const (
-	c19OldBase   = 900000 // ids >= this: records written by an earlier run (not judged)
-	c19MinLen    = 16
-	c19KnownFp   = "rotate-drops-fp"
-	c19KnownBuf  = "write-retains-slice"
-	c19KnownGlob = "glob-meta-in-path"
-	c19GlobMeta  = "*?[\\"
-	c19GStride   = 10000 // record id = (entry point*4 + goroutine)*stride + sequence number
-	c19Keys      = 32    // 8 entry points x 4 goroutines
-	c19DateOnly  = "2006-01-02"
+	c19OldBase  = 900000 // ids >= this: records written by an earlier run (not judged)
+	c19MinLen   = 16
+	c19KnownFp  = "rotate-drops-fp"
+	c19KnownBuf = "write-retains-slice"
+	c19GlobMeta = "*?[\\"
+	c19GStride  = 10000 // record id = (entry point*4 + goroutine)*stride + sequence number
+	c19Keys     = 32    // 8 entry points x 4 goroutines
+	c19DateOnly = "2006-01-02"
 )
 
 type c19Pre struct {
@@ -473,7 +472,6 @@ type c19Result struct {
 	fail      string
 	known     string
 	knownBuf  string
-	knownGlob string
 	rotations int
 	classes   map[string]bool
 	preGone   int
@@ -500,9 +498,6 @@ func c19Interp(t *testing.T, c c19Case) (v kit.Verdict) {
 	case r.knownBuf != "":
 		v.Fail = r.knownBuf
 		v.Known = c19KnownBuf
-	case r.knownGlob != "":
-		v.Fail = r.knownGlob
-		v.Known = c19KnownGlob
 	}
 	return v
 }
@@ -765,10 +760,7 @@ func c19Run(c c19Case, root string, r *c19Result) {
 	var count [c19Keys]int // records accepted so far, per (entry point, goroutine)
 	recordsJudged := true  // false once the known defect "write-retains-slice" has damaged the files
 	retains := c.Buf != "" || c.Mode == "plain"
-	// globby: the path holds a glob meta-character. OutdatedFiles uses the path as a
-	// filepath.Glob pattern (finding glob-meta-in-path): retention failures of such cases are
-	// attributed to it and retention is then not judged any further in the case.
-	globby := strings.ContainsAny(c.Dir, c19GlobMeta) || (c.Mode == "" && strings.ContainsAny(c.Base, c19GlobMeta))
+	// retention failures are never tolerated (finding glob-meta-in-path is repaired in 0112705)
 	retentionJudged := true
 	coherent := c.Gzip == c.Compress
 	if !coherent {
@@ -806,13 +798,6 @@ func c19Run(c c19Case, root string, r *c19Result) {
 			return false
 		}
 		retFail := func(format string, a ...any) bool {
-			if globby {
-				if r.knownGlob == "" {
-					r.knownGlob = fmt.Sprintf(format, a...) + " [the path contains a glob meta-character]"
-				}
-				retentionJudged = false
-				return true
-			}
 			failf(format, a...)
 			return false
 		}
@@ -914,7 +899,6 @@ func c19Run(c c19Case, root string, r *c19Result) {
 			// bornOutdated: the backup made by this step's rotation is absent and its name was
 			// already older than the retention days, so the clean-up removed it at once
 			bornOutdated := false
-			newBackupAbsent := rotated
 			if rotated {
 				for _, expT := range expTs {
 					n := e.backupName(lg, expT, c.Compress)
@@ -923,9 +907,6 @@ func c19Run(c c19Case, root string, r *c19Result) {
 					}
 					if cur[n] == nil && c.Days > 0 && e.older(expT, now, c.Days) {
 						bornOutdated = true
-					}
-					if cur[n] != nil {
-						newBackupAbsent = false
 					}
 				}
 			}
@@ -1038,14 +1019,6 @@ func c19Run(c c19Case, root string, r *c19Result) {
 							// it was in the file rotated in this step
 							lg.gone[id] = true
 							r.classes["backup-outdated-at-birth"] = true
-							continue
-						case globby && rotated && oldRecs[id] && newBackupAbsent:
-							// finding glob-meta-in-path: the clean-up's pattern also matched files of
-							// other logs, ranked them as newer and removed the backup just made
-							if r.knownGlob == "" {
-								r.knownGlob = fmt.Sprintf("%s: record %d was in the file rotated in this step, whose backup was removed at once although it is not outdated [the path contains a glob meta-character]", what, id)
-							}
-							lg.gone[id] = true
 							continue
 						}
 						if lg.l.fp == nil && (rotated || lg.rotations > 0) {
